@@ -46,6 +46,8 @@ class WrappersDriver:
         self.pool = None
         self.traced_obs = ("none", "none", "none")
         self.VAL, self.ERR, self.BASE = object(), Err("fn failed"), Base("fn base")
+        self.AW = self.w.loop.create_future()      # an awaitable object returned as a plain value
+        self.AW.set_result("what awaiting the returned object would give")
         self.metrics = []
         w.start("1")
         for k in range(1, self.s["depth"] + 1):
@@ -68,6 +70,8 @@ class WrappersDriver:
         o = self.s["outcome"]
         if o == "val":
             return self.VAL
+        if o == "aw":
+            return self.AW
         raise self.ERR if o == "exc" else self.BASE
 
     def _make(self):
@@ -123,7 +127,7 @@ class WrappersDriver:
     def _classify(self, got):
         k, v = got
         if k == "val":
-            return "val" if v is self.VAL else f"foreign value {v!r}"
+            return "val" if v is self.VAL else "aw" if v is self.AW else f"foreign value {v!r}"
         if v is self.ERR:
             return "exc"
         if v is self.BASE:
@@ -204,7 +208,8 @@ class WrappersDriver:
         else:
             a = f"args {at!r}"[:120]
         if isinstance(rt, ResultTrace):
-            r = self._classify(("val", rt.result)) if rt.result is self.VAL else self._classify(("exc", rt.result))
+            r = self._classify(("val", rt.result)) if rt.result is self.VAL or rt.result is self.AW \
+                else self._classify(("exc", rt.result))
         else:
             r = "none"
         self.traced_obs = (label, a, r)
